@@ -45,6 +45,9 @@ func genIndConfig(rng *rand.Rand, e *IndEntity, allowDefault bool) (cfg []int, s
 			if rng.Intn(4) > 0 && cfg[i] == 1 {
 				cfg[i] = 2 + rng.Intn(6)
 			}
+			if deepTier && rng.Intn(5) == 0 {
+				cfg[i] = 10 + rng.Intn(25)
+			}
 		}
 		return cfg, 1
 	case x < 88 || !allowDefault:
